@@ -361,6 +361,13 @@ def new_width_casts(facts):
 
 def special_c17(res, tier, seed, workdir, stats):
     facts_judge(res, "C17", c17_concrete)
+    # the symbolic executor of coregen has no notion of byte order or pointer width: it translates only target-independent
+    # primitives (from_le_bytes / to_le_bytes, wrapping arithmetic on u64/u32, literal lengths) and refuses everything else
+    # (to_ne_bytes, transmutes, arithmetic on non-literal usize).  A portable-path function that is translated AND equal to the
+    # (target-independent) model is therefore target-neutral for all inputs; one that is no longer translated escalates.
+    core_translation(res, tier, seed, workdir, stats, pid="C17")
+    if isinstance(res.cov.get("source_translation"), dict):
+        res.cov["source_translation"]["meaning_for_this_property"] = "translated functions use target-independent primitives only and equal the target-independent model for all inputs"
     esc = new_width_casts(getattr(res, "facts", None))
     if esc:
         res.notes.append(f"{len(esc)} pointer-width-sensitive cast(s) not present in the pinned tree: the 32-bit stages run their thorough generators: {esc[:4]}")
